@@ -6,7 +6,8 @@ from oracle_util import *  # noqa
 from protocol import from_real
 
 ID = "C04"
-LEAN_MODULE = "SCoda.Props.C04"
+LEAN_MODULE = ["SCoda.Props.C04", "SCoda.Props.C04b"]
+LEVEL = "proof"
 CLAUSES = [
     ("after any history both views describe the same timed events and the same duration (generic two-view machine, instantiated with the modelled conversions)",
      ["SCoda.C04.run_inv", "SCoda.C04.views_agree", "SCoda.C04.inv_new", "SCoda.C04.inv_ofAbs", "SCoda.C04.inv_ofRel",
@@ -16,8 +17,16 @@ CLAUSES = [
     ("converting between the representations in either direction loses no event and no duration",
      ["SCoda.C04.toRel_events", "SCoda.C04.toRel_duration", "SCoda.C04.toAbs_events", "SCoda.C04.toAbs_duration",
       "SCoda.C04.toRel_ok", "SCoda.C04.toAbs_ok"]),
-    ("every public mutator is a view-local function that keeps its view legal (OkAbs / OkRel), so it is an Op of the machine", None),
-    ("the public operations found by introspection are all covered by the model's alphabet", None),
+    ("every public mutator is a view-local function that keeps its view legal (OkAbs / OkRel), so it is an Op of the machine; "
+     "the concrete wrapper functions are steps of the generic machine",
+     ["SCoda.C04.normalise_okR", "SCoda.C04.pad_okR", "SCoda.C04.setChannel_okR", "SCoda.C04.scaleRel_okR", "SCoda.C04.transposeRel_okR",
+      "SCoda.C04.concatenate_okR", "SCoda.C04.insertAt_okR", "SCoda.C04.mapRel_okR", "SCoda.C04.split_okR",
+      "SCoda.C04.insort_eq_spec", "SCoda.C04.insort_okA", "SCoda.C04.overwrite_okA", "SCoda.C04.sortAbs_okA", "SCoda.C04.mergeAbs_okA",
+      "SCoda.C04.cutoff_okA", "SCoda.C04.quantise_okA", "SCoda.C04.qnl_okA", "SCoda.C04.mapAbs_okA",
+      "SCoda.C04.onRel_refines", "SCoda.C04.onAbs_refines", "SCoda.C04.overwriteAbs_refines", "SCoda.C04.overwriteRel_refines",
+      "SCoda.C04.refresh_refines", "SCoda.C04.copy_inv"]),
+    ("the public operations found by introspection are all covered by the model's alphabet (regenerated list, kernel-decided)",
+     ["SCoda.C04.ops_covered", "SCoda.C04.ops_exist"]),
 ]
 RULE = ("random histories (<=12 ops quick, <=40 thorough) over the full public alphabet (mutators, both overwrites, edits while "
         "iterating either view, copy, refresh, reads in any order) from each of the three freshness states, driven through real "
